@@ -341,9 +341,25 @@ def sel(index, rep):
         isinstance(t, ast.Name) and t.id == var for t in (st.targets if isinstance(st, ast.Assign) else [st.target]))]
     okd = bool(defs)
     why = []
+    from .core import Inliner
+    inl_y = Inliner(yf)
+    cfg = yf.args.args[0].arg
+
+    def accepted(e):
+        """the file's own `countries` setting, the empty list, or the variable itself wrapped in a list"""
+        t = inl_y.src(e).replace('"', "'")
+        if t in (f"{cfg}['settings']['countries']", "[]", f"[{var}]", f"list({var})", f"{cfg}['settings'].get('countries', [])",
+                 f"{cfg}.get('settings', {{}}).get('countries', [])"):
+            return True
+        if isinstance(e, ast.IfExp):
+            return accepted(e.body) and accepted(e.orelse)
+        if isinstance(e, ast.Name) and inl_y.single(e.id) is not None:
+            return accepted(inl_y.single(e.id))
+        return False
+
     for st in defs:
         v = norm_src(st.value) if isinstance(st, ast.Assign) else None
-        if v in ("config_data['settings']['countries']", "[]", f"[{var}]", f"list({var})"):
+        if isinstance(st, ast.Assign) and accepted(st.value):
             continue
         val = st.value if isinstance(st, ast.Assign) else None
         if isinstance(val, ast.ListComp) and len(val.generators) == 1 and not val.generators[0].ifs and norm_src(val.generators[0].iter) == var \
